@@ -485,6 +485,11 @@ func WorkerMain(dir, libs string) {
 		enc.Encode(r)
 		out.Flush()
 		if r.Err != "" {
+			if strings.HasPrefix(r.Err, "R3") {
+				// the coordinator arbitrates (see Engine.arbitrate) and may go on: start afresh
+				w = &workerState{dir: dir, libs: libs}
+				continue
+			}
 			os.Exit(2)
 		}
 	}
